@@ -65,6 +65,10 @@ CommandSignature ShellCommand::getSignature() const {
     code = code.combine(int(depsStyle));
     code = code.combine(int(inheritEnv));
     code = code.combine(int(canSafelyInterrupt));
+    // The directory the process runs in and whether it is given the control
+    // channel change what the command does just like its arguments.
+    code = code.combine(workingDirectory);
+    code = code.combine(int(controlEnabled));
   }
   signature = code;
   if (signature.isNull()) {
